@@ -13,6 +13,7 @@ reorders.  One inductive step from an arbitrary valid state covers histories of 
 Element equality is equality of identities in the solver (two lazily initialised elements may or may not coincide: both
 cases are explored)."""
 import itertools
+import re
 import z3
 from engine import *
 from prove import Obligation
@@ -96,6 +97,7 @@ def obligations(ctx):
     set_containers(ctx)
     asset_name_order(ctx)
     reference_inputs_deterministic(ctx)
+    hash_agrees_with_eq(ctx)
 
 
 def set_containers(ctx):
@@ -308,3 +310,98 @@ def reference_inputs_deterministic(ctx):
                   pa + pb, same)
     ob.cross_every = 4
     ob.finish(agg, lambda m, info=None: ("e2n_c16_repeat_build", []))
+
+
+# ---------------------------------------------------------------- hand-written Hash agrees with the equality the hash containers use
+def hash_agrees_with_eq(ctx):
+    """A `HashSet` / `HashMap` keeps a set only if  a == b  implies  hash(a) == hash(b).  For every crate type with a
+    hand-written `impl Hash`: `hash` is executed on two lazy values a, b with a recording hasher (what is fed to the
+    hasher, as identities of the parts), `eq` on the same two values with part equality = identity equality; then
+    eq(a, b) must imply that the k-th thing hashed from a is identical to the k-th thing hashed from b."""
+    P = ctx.P
+    ob = Obligation(ctx, "c16_e2_hash_agrees_with_eq", "every crate type with a hand-written Hash impl; two arbitrary (lazily initialised) values; parts opaque", ["<T as Hash>::hash", "<T as PartialEq>::eq"],
+                    fallback_native="e2n_c16_hash_eq")
+    agg = Engine(P)
+    tys = {}
+    for d in P.fns:
+        if re.search(r"::hash(#\d+)?$", d) and "<impl at" in d:
+            ty, tr = P.impl_of(d)
+            if ty and tr and last_seg(tr.split("<")[0]) == "Hash" and not P.is_derived(d) and "$" not in ty:
+                tys.setdefault(ty, d)
+    # only what can be (part of) an element of the set-typed collections matters for C16
+    ELEMS = ["Certificate", "VotingProposal", "Credential", "TransactionInput", "Ed25519KeyHash", "Vkeywitness", "BootstrapWitness"]
+    import os
+    bodies = {}
+    for root, _, files in os.walk(P.src_root):
+        for f in files:
+            if f.endswith(".rs") and "/tests" not in root:
+                src = re.sub(r"//[^\n]*", "", open(os.path.join(root, f), errors="replace").read())
+                for m in re.finditer(r"\b(?:struct|enum)\s+(\w+)\s*(?:<[^>{(]*>)?\s*([({])", src):
+                    depth, k = 0, m.end() - 1
+                    op, cl = m.group(2), {"(": ")", "{": "}"}[m.group(2)]
+                    j = k
+                    while j < len(src):
+                        if src[j] == op: depth += 1
+                        elif src[j] == cl:
+                            depth -= 1
+                            if depth == 0: break
+                        j += 1
+                    bodies.setdefault(m.group(1), src[k:j + 1])
+    def mentions(t):
+        return set(re.findall(r"\b[A-Z]\w+\b", bodies.get(t, "")))
+    inside, todo = set(ELEMS), list(ELEMS)
+    while todo:
+        for y in mentions(todo.pop()):
+            if y not in inside:
+                inside.add(y); todo.append(y)
+    noted = sorted(t for t in tys if t not in inside)
+    covered = []
+    for ty in sorted(tys):
+        if ty not in inside:
+            continue
+        eqd = P.resolve("<%s as PartialEq>::eq" % ty)
+        if eqd is None or P.is_derived(eqd):
+            continue        # a derived PartialEq compares every field: whatever parts Hash feeds are then equal
+        def install(E):
+            def nested_hash(E_, c, args):
+                m = re.match(r"^<(.*) as (?:std::hash::|core::hash::)?Hash>::hash", c)
+                if not m or last_seg(m.group(1)) == ty:
+                    return NotImplemented
+                E_.trace.append(("hashed", E_.as_u(VM.deref(E_, args[0]))))
+                return UNIT
+            def nested_eq(E_, c, args):
+                m = re.match(r"^<(.*) as (?:std::cmp::|core::cmp::)?PartialEq(?:<.*>)?>::(eq|ne)$", c)
+                if not m or last_seg(m.group(1)) == ty:
+                    return NotImplemented
+                t = E_.as_u(VM.deref(E_, args[0])) == E_.as_u(VM.deref(E_, args[1]))
+                return VBool(t if m.group(2) == "eq" else z3.Not(t))
+            E.extra_intrinsics[r" as (std::hash::|core::hash::)?Hash>::hash(::<.*>)?$"] = nested_hash
+            E.extra_intrinsics[r" as (std::cmp::|core::cmp::)?PartialEq(<.*>)?>::(eq|ne)$"] = nested_eq
+            E.extra_intrinsics[r"Hasher>::write\w*$"] = lambda E_, c, args: (E_.trace.append(("hashed", E_.as_u(VM.deref(E_, args[1])))), UNIT)[1]
+        try:
+            runs = {}
+            for who in ("a", "b"):
+                E = Engine(P, max_loop=4)
+                install(E)
+                outs = [o for o in E.explore("<%s as Hash>::hash" % ty, lambda: [R(VLazy(who, ty), "self"), R(VOpaque("hasher"), "state")], max_paths=8) if o.kind == "return"]
+                if len(outs) != 1:
+                    raise Unsupported("hash has %d paths" % len(outs))
+                runs[who] = [t[1] for t in outs[0].trace if t[0] == "hashed"]
+                agg.stats["paths"] += E.stats["paths"]; agg.stats["functions"] |= E.stats["functions"]
+            E = Engine(P, max_loop=4)
+            install(E)
+            for o in E.explore("<%s as PartialEq>::eq" % ty, lambda: [R(VLazy("a", ty), "self"), R(VLazy("b", ty), "other")], max_paths=64):
+                if o.kind != "return":
+                    continue
+                if len(runs["a"]) != len(runs["b"]):
+                    ob.violation("%s: hash feeds %d parts for one value and %d for another" % (ty, len(runs["a"]), len(runs["b"]))); continue
+                same = z3.And([x == y for x, y in zip(runs["a"], runs["b"])]) if runs["a"] else z3.BoolVal(True)
+                ob.vc("%s: a == b implies the same parts are hashed (%d parts)" % (ty, len(runs["a"])), list(o.pc) + [o.value.t if isinstance(o.value, VBool) else z3.BoolVal(True)], same, info=dict(ty=ty))
+            agg.stats["paths"] += E.stats["paths"]; agg.stats["functions"] |= E.stats["functions"]
+            covered.append("%s(%d parts)" % (ty, len(runs["a"])))
+        except (Unsupported, PathAbort) as e:
+            ob.fail("%s: cannot be executed (%s)" % (ty, str(e)[:120]))
+    ob.bound += ". Types: " + ", ".join(covered) + ". Hand-written Hash impls that cannot be part of an element of a set-typed collection (not checked here): " + ", ".join(noted)
+    if not any(c.startswith("Ed25519KeyHashes") for c in covered) or not any(c.startswith("Credentials") for c in covered):
+        ob.fail("expected the hand-written Hash impls nested in certificates and proposals (Ed25519KeyHashes, Credentials), found only %s" % covered)
+    ob.finish(agg)
